@@ -8,14 +8,14 @@ NEEDS_SHIM = False
 BUDGET = {"quick": 2000, "thorough": 50000}
 MIN_EVALS = {"quick": 3000, "thorough": 80000}
 RULE = (
-    "seeded random cases: grid dataset of 1-2 axes with or without dimension coordinates (with attributes), 0-5 random "
+    "seeded random cases: grid dataset of 1-2 axes with dimension coordinates on all, none or a random subset of the dimensions (with attributes), 0-5 random "
     "non-dimension coordinates (0-D/1-D/N-D on any mix of positions and an extra dim, with attributes), an input at a "
     "random position carrying the dataset's coordinates or none, one of diff/interp/min/max/cumsum over one or two axes "
     "with any of the 8 shifts (padded and unpadded paths), keep_coords true/false/default. Verdicts: coordinate set of "
     "the result == {dataset coordinates fitting the result dims} (keep_coords) / {dimension coordinates} (otherwise); "
     "each attached coordinate equals the dataset's in values and attrs (compared by dimension name); no coordinate on "
     "the abandoned dimension; name kept; values identical when the input's labels are removed or scrambled. Class = "
-    "(op, from, to, keep_coords, carry, has dim coords, #aux coords fitting); non-trivial iff the dataset has at least "
+    "(op, from, to, keep_coords, carry, dim coords everywhere/nowhere/mixed, #aux coords fitting); non-trivial iff the dataset has at least "
     "one coordinate that fits the result."
 )
 REQUIRED_REACH = ["xgcm.grid_ufunc._reattach_coords", "xgcm.padding._strip_all_coords", "xgcm.grid.Grid.cumsum"]
@@ -27,7 +27,9 @@ def gen_case(rng, i, tier):
     axn = [a["name"] for a in layout["axes"]]
     cm = gen.layout_coords(layout)
     alld = [d for a in axn for d in cm[a].values()]
-    withdim = rng.random() < 0.8
+    # dimension coordinates: everywhere, nowhere, or only on some of the dimensions
+    k = rng.random()
+    withdim = True if k < 0.45 else (False if k < 0.6 else [d for d in alld if rng.random() < 0.5])
     aux = []
     for k in range(rng.randint(0, 5)):
         nd = rng.randint(0, 3)
@@ -92,7 +94,7 @@ def run_case(ctx, desc):
     axarg = opax if len(opax) > 1 else opax[0]
     rdims = [{cm[a][desc["pos"][a]]: cm[a][to[a]] for a in opax}.get(d, d) for d in dims]
     expc = {c for c, v in ds.coords.items() if set(v.dims) <= set(rdims) and (kc or c in rdims)}
-    ckey = (op, [(desc["pos"][a], to[a]) for a in opax], desc["keep_coords"], desc["carry"], desc["withdim"],
+    ckey = (op, [(desc["pos"][a], to[a]) for a in opax], desc["keep_coords"], desc["carry"], desc["withdim"] if isinstance(desc["withdim"], bool) else "mixed",
             min(3, len(expc)))
     ctx.judged(ckey, len(expc) > 0)
     try:
